@@ -136,6 +136,30 @@ def open_keys(prop_id):
             if e["property"] == prop_id and e.get("status") == "open"}
 
 
+class CaseTimeout(BaseException):
+    pass
+
+
+@contextlib.contextmanager
+def safety_net(seconds):
+    """Wall-clock safety net per case: expiry means 'inconclusive', never a violation."""
+    import signal
+
+    def handler(signum, frame):
+        raise CaseTimeout()
+    try:
+        old = signal.signal(signal.SIGALRM, handler)
+    except ValueError:          # not in the main thread
+        yield
+        return
+    signal.setitimer(signal.ITIMER_REAL, seconds)
+    try:
+        yield
+    finally:
+        signal.setitimer(signal.ITIMER_REAL, 0)
+        signal.signal(signal.SIGALRM, old)
+
+
 @contextlib.contextmanager
 def quiet():
     """Capture everything the code under test prints (it prints 'Illegal jump ...')."""
@@ -219,8 +243,10 @@ def run_given_shard(mod, tier, seed, n, rec, mode=None):
         if ctl.key is None:
             rec.evaluations += 1
         try:
-            with quiet():
+            with quiet(), safety_net(getattr(mod, "CASE_TIMEOUT", 120)):
                 mod.oracle(case, rec)
+        except CaseTimeout:
+            rec.inconclusive["safety-net timeout"] += 1
         except Inconclusive as e:
             rec.inconclusive[str(e).split(":")[0][:60]] += 1
         except PropertyViolation as v:
